@@ -127,8 +127,14 @@ func (tr *trio) stop() {
 }
 
 func (tr *trio) closeConns() {
+	// QUIT and wait for the server to close: the server forgets a connection
+	// (and its name / replication port, shown by ROLE, INFO, CLIENT LIST) only
+	// when its goroutine notices the close
 	for _, c := range []*t38.Conn{tr.a, tr.b, tr.cc} {
 		if c != nil {
+			c.C.SetDeadline(time.Now().Add(5 * time.Second))
+			c.SendRaw(t38.EncodeCmd("QUIT"))
+			io.Copy(io.Discard, c.BR)
 			c.Close()
 		}
 	}
@@ -276,6 +282,9 @@ func malformedKey(name, raw string) string {
 			return idEvalNonFinite
 		}
 		return idNonFiniteCoords
+	}
+	if name == "client list" && strings.Contains(raw, `"list":,`) {
+		return idClientListNaN
 	}
 	return "json-malformed:" + name
 }
